@@ -116,6 +116,7 @@ static int enabled_ops(op_t *o, int max) {
                 case A_TELL: case A_PILL: for (int t = 0; t < NMO; t++) EMIT(O_ARM, s, cb * 32 + a, t); break;
                 case A_PUB: for (int tp = 0; tp < NTOPIC; tp++) if (P.topics & (1u << tp)) EMIT(O_ARM, s, cb * 32 + a, tp); break;
                 case A_QUIT: EMIT(O_ARM, s, cb * 32 + a, 1); break;
+                case A_TICK: EMIT(O_ARM, s, cb * 32 + a, 0); break;
                 case A_SUB: case A_UNSUB: for (int p = 0; p < NPAT; p++) if (P.pats & (1u << p)) EMIT(O_ARM, s, cb * 32 + a, p); break;
                 case A_STASH: if (cb == CB_EVT) for (int k = 0; k < 3; k++) EMIT(O_ARM, s, cb * 32 + a, k); break;
                 case A_UNSTASH: if (cb == CB_EVT) for (int k = 0; k < 3; k++) EMIT(O_ARM, s, cb * 32 + a, k); break;
